@@ -203,6 +203,14 @@ def s_stream(draw, tier):
             "bufsize": draw(st.sampled_from([1, 3, 64, 512, 4096])),
         }
     script = draw(st.one_of(st.just([]), streams.read_scripts(64)))
+    if draw(st.integers(0, 7)) == 0:
+        # a frame whose 3 header bytes are followed by junk and only then by its payload and CRC, with an empty read
+        # right after the header and a short read (exactly the junk) on the resumed request: a reader that keeps a
+        # partial frame across calls must not glue the stale header to what follows
+        g = bytes.fromhex(draw(streams.frames("small"))["b"])
+        junk = draw(st.lists(st.sampled_from([1, 2, 7, 9, 0x55, 0xAA]), min_size=1, max_size=min(8, max(1, len(g) - 7))).map(bytes))
+        items = [streams.item("decoy", g[:3] + junk + g[3:], decoy="header-junk-rest")] + items
+        script = [None, None, None, 0, len(junk)] + script
     return {"items": items, "script": script, "qoe": draw(st.sampled_from([0, 1, 2]))}
 
 
@@ -217,7 +225,7 @@ SUBS = [
         strategy=s_stream,
         examples=(300, 6000),
         rule="see property rule",
-        need={"fault-inside-valid-frame": 1, "empty-read-inside-valid-frame": 1, "damaged": 1, "decoy:reserved-bits": 1, "decoy:lying-length": 1, "decoy:nested-ubx": 1, "decoy:jumbo-frame": 1, "delivered": 10, "socket-timeout-or-error-mid-stream": 1},
+        need={"fault-inside-valid-frame": 1, "empty-read-inside-valid-frame": 1, "damaged": 1, "decoy:reserved-bits": 1, "decoy:lying-length": 1, "decoy:nested-ubx": 1, "decoy:jumbo-frame": 1, "decoy:split-behind-false-syncs": 1, "decoy:header-junk-rest": 1, "delivered": 10, "socket-timeout-or-error-mid-stream": 1},
         sample=_sample,
     ),
     __import__("pv.fuzz.campaign", fromlist=["make"]).make("C01", ("C01",)),
